@@ -45,12 +45,23 @@ impl InputColumn {
             }
             ColumnData::String(data) => {
                 assert!(
-                    (data.len() as u64) == rows,
+                    (data.len() as u64) <= rows,
                     "rows: {}, data.len(): {}",
                     rows,
                     data.len()
                 );
-                InputColumn::Str(data)
+                if (data.len() as u64) < rows {
+                    // The row API leaves a string column short when the last rows do not mention it
+                    InputColumn::Mixed(
+                        data.into_iter()
+                            .map(Value::Str)
+                            .chain(std::iter::repeat(Value::Null))
+                            .take(rows as usize)
+                            .collect(),
+                    )
+                } else {
+                    InputColumn::Str(data)
+                }
             }
             ColumnData::Empty => InputColumn::Null(rows as usize),
             ColumnData::SparseI64(data) => InputColumn::NullableInt(rows, data),
